@@ -17,6 +17,7 @@ import ProphyModel.Copy
 import ProphyModel.Files
 import ProphyModel.Patch
 import ProphyModel.Accept
+import ProphyModel.WF
 open Lean Prophy Prophy.Driver
 
 structure DState where
@@ -275,7 +276,7 @@ def handle (st : DState) (j : Json) : Except String (DState × Json) := do
     | .error _ => pure (st, Json.mkObj [("error", true)])
   | "accepts" =>
     let ty ← getTy st j
-    pure (st, Json.mkObj [("front", Accept.front ty), ("pyrt", Accept.pyRt ty)])
+    pure (st, Json.mkObj [("front", Accept.front ty), ("pyrt", Accept.pyRt ty), ("wf", WF.wfTy ty)])
   | "py_copy" =>
     let ty ← getTy st j
     let v ← valOfJson (← j.getObjVal? "v")
@@ -375,6 +376,11 @@ def handle (st : DState) (j : Json) : Except String (DState × Json) := do
     match Py.encode ty v e with
     | .ok b => pure (st, Json.mkObj [("bytes", toHex b)])
     | .error x => pure (st, Json.mkObj [("exc", excName x)])
+  | "hypotheses" =>
+    -- the hypotheses of the codec theorems (C01 / C19 / C02) on this (type, value)
+    let ty ← getTy st j
+    let v ← valOfJson (← j.getObjVal? "v")
+    pure (st, Json.mkObj [("wf", WF.wfTy ty), ("typed", hasType ty v), ("agree", WF.agreeTy ty v)])
   | "py_decode" =>
     let ty ← getTy st j
     let data ← ofHex (← getStr j "data")
